@@ -29,6 +29,7 @@ if of_01.deferredSender is None:
 
 REPO = os.path.realpath(poxenv.REPO)
 RAISE_XID = 66
+CLOSE_XID = 67        # the handler of the message with this xid gives the connection up (con.disconnect / close)
 RAISE_SET = set()     # further xids whose handler fails (set by the C02 adapter)
 BUDGET = 200000
 
@@ -132,6 +133,20 @@ class FSock(object):
     return b
 
 
+def select_would_fail(sel):
+  """What select.select() does with the lists a task hands to the hub: a socket that has been closed (its
+  fileno() is negative) makes it raise - and nothing in SelectHub._select catches that, so the hub, and with
+  it all I/O of the process, stops.  The scripted loops never call the real select: this is its contract."""
+  for lst in getattr(sel, "_args", ())[:3]:
+    for s in (lst or ()):
+      try:
+        if s.fileno() < 0:
+          return True
+      except Exception:
+        return True
+  return False
+
+
 # ---------------------------------------------------------------------------
 class ControllerLoop(object):
   """the real OpenFlow_01_Task.run generator with connections A, B, ..."""
@@ -157,6 +172,9 @@ class ControllerLoop(object):
 
       def accept(self_):
         return (pending.pop(0), ("peer", 1))
+
+      def fileno(self_):
+        return 199
 
       def close(self_):
         pass
@@ -186,6 +204,8 @@ class ControllerLoop(object):
         harness.delivered[nm].append((m.header_type, m.xid, m.pack()))
         if m.xid == RAISE_XID or m.xid in RAISE_SET:
           raise RuntimeError("handler failure (scripted)")
+        if m.xid == CLOSE_XID:
+          c.disconnect("handler gives up (scripted)")      # what the handshake handlers do on an unexpected reply
       con.handlers = [rec] * 256
     of_01.Connection.__init__ = con_init
     self.alive = True
@@ -203,6 +223,10 @@ class ControllerLoop(object):
   def _send(self, res):
     try:
       self.sel = self.gen.send(res)
+      if select_would_fail(self.sel):
+        self.alive = False
+        self.died = "select:closed-socket-in-list"
+        return
     except StopIteration:
       self.alive = False
       self.died = "returned"
@@ -283,6 +307,8 @@ class SwitchLoop(object):
           self.delivered[nm].append((m.header_type, m.xid, m.pack()))
           if m.xid == RAISE_XID or m.xid in RAISE_SET:
             raise RuntimeError("handler failure (scripted)")
+          if m.xid == CLOSE_XID:
+            con.close()                                      # the switch side gives up on its controller connection
         c.set_message_handler(rec)
         self.ofcons[nm] = c
       if connecting:
@@ -298,6 +324,10 @@ class SwitchLoop(object):
   def _send(self, res):
     try:
       self.sel = self.gen.send(res)
+      if select_would_fail(self.sel):
+        self.alive = False
+        self.died = "select:closed-socket-in-list"
+        return
     except StopIteration:
       self.alive = False
       self.died = "returned"
@@ -432,7 +462,7 @@ def corrupt(side, kind, xid, fault, param=0):
       raise ValueError(fault)
     # with an unknown type there is no "fixed part" the length could fall short of
     return bytes(h), c[1], (False if first == "TYPE_UNKNOWN" and c[2] == "short" else c[2])
-  if fault in ("OK", "HANDLER_RAISES"):
+  if fault in ("OK", "HANDLER_RAISES", "HANDLER_CLOSES"):
     return bytes(g), n, True
   if fault == "MUTATED":              # param seeds 1-3 random byte changes of a valid message
     import random
@@ -484,5 +514,5 @@ def corrupt(side, kind, xid, fault, param=0):
 COMPOUND = ["BAD_VERSION+LEN_LT_8", "TYPE_UNKNOWN+LEN_LT_8", "BAD_VERSION+LEN_GT_ACTUAL", "TYPE_UNKNOWN+LEN_GT_ACTUAL",
             "BAD_VERSION+LEN_LT_NEEDED", "TYPE_UNKNOWN+LEN_LT_NEEDED"]
 HEADER_FAULTS = ["BAD_VERSION", "TYPE_UNKNOWN", "LEN_LT_8", "LEN_LT_NEEDED", "LEN_GT_ACTUAL"]
-FAULTS = ["HANDLER_RAISES", "BAD_VERSION", "TYPE_UNKNOWN", "TYPE_WRONG_DIR", "LEN_LT_8", "LEN_LT_NEEDED", "LEN_GT_ACTUAL",
+FAULTS = ["HANDLER_RAISES", "HANDLER_CLOSES", "BAD_VERSION", "TYPE_UNKNOWN", "TYPE_WRONG_DIR", "LEN_LT_8", "LEN_LT_NEEDED", "LEN_GT_ACTUAL",
           "INNER_LEN_BAD", "TRUNCATED"]
